@@ -1,6 +1,6 @@
 // exprgen: translates selected pure integer expressions of the Go source under -repo into Lean 4
 // BitVec definitions (one `def` per anchor). It interprets nothing; it only prints what the source
-// says. Anchors are (file, func, assigned variable | "return", occurrence). Free identifiers of the
+// says. Anchors are (file, func, assigned variable | "returnN" | "ifN" | "arg:<callee>:<k>", occurrence). Free identifiers of the
 // expression become parameters of the definition, named constants given in the spec become literals.
 //
 //	exprgen -repo /repo -spec anchors.json -ns Firefly.Gen.C07Expr > C07Expr.lean
@@ -20,6 +20,7 @@ import (
 	"os"
 	"path/filepath"
 	"sort"
+	"strconv"
 	"strings"
 )
 
@@ -32,6 +33,7 @@ type anchor struct {
 	Width  int               `json:"width"`  // bit width of the expression (default 64)
 	Consts map[string]interface{} `json:"consts"` // printed identifier -> value (number) or Lean term (string)
 	Widths map[string]int    `json:"widths"` // conversion name -> width (e.g. uint32: 32)
+	Signed bool              `json:"signed"` // ordered comparisons are signed (Go int/int64 operands)
 }
 
 type tr struct {
@@ -93,6 +95,12 @@ func (t *tr) expr(e ast.Expr) string {
 				fmt.Sscanf(x.Value[2:], "%x", &v)
 			}
 			return fmt.Sprintf("%d#64", v)
+		}
+		if x.Kind == token.CHAR {
+			// a rune literal such as '0' is its code point
+			if r, _, _, err := strconv.UnquoteChar(strings.Trim(x.Value, "'"), '\''); err == nil {
+				return fmt.Sprintf("%d#64", uint64(r))
+			}
 		}
 	case *ast.Ident, *ast.SelectorExpr, *ast.IndexExpr, *ast.StarExpr:
 		s := exprString(e)
@@ -175,6 +183,20 @@ func (t *tr) cond(e ast.Expr) string {
 		case token.LOR:
 			return "(" + t.cond(x.X) + " || " + t.cond(x.Y) + ")"
 		case token.LSS, token.GTR, token.LEQ, token.GEQ, token.EQL, token.NEQ:
+			if t.a.Signed && x.Op != token.EQL && x.Op != token.NEQ {
+				// comparison of Go signed integers (anchor option "signed": true)
+				l, r := t.expr(x.X), t.expr(x.Y)
+				switch x.Op {
+				case token.LSS:
+					return "(BitVec.slt " + l + " " + r + ")"
+				case token.GTR:
+					return "(BitVec.slt " + r + " " + l + ")"
+				case token.LEQ:
+					return "(BitVec.sle " + l + " " + r + ")"
+				default:
+					return "(BitVec.sle " + r + " " + l + ")"
+				}
+			}
 			op := map[token.Token]string{token.LSS: "<", token.GTR: ">", token.LEQ: "≤", token.GEQ: "≥", token.EQL: "=", token.NEQ: "≠"}[x.Op]
 			return "(decide (" + t.expr(x.X) + " " + op + " " + t.expr(x.Y) + "))"
 		}
@@ -213,6 +235,7 @@ func find(fd *ast.FuncDecl, v string, occ int) ast.Expr {
 						if s.Tok != token.ASSIGN && s.Tok != token.DEFINE {
 							// x op= y  ==>  x op y
 							op := map[token.Token]token.Token{token.ADD_ASSIGN: token.ADD, token.SUB_ASSIGN: token.SUB,
+								token.MUL_ASSIGN: token.MUL, token.QUO_ASSIGN: token.QUO, token.REM_ASSIGN: token.REM,
 								token.AND_ASSIGN: token.AND, token.OR_ASSIGN: token.OR, token.AND_NOT_ASSIGN: token.AND_NOT,
 								token.SHL_ASSIGN: token.SHL, token.SHR_ASSIGN: token.SHR, token.XOR_ASSIGN: token.XOR}[s.Tok]
 							found = &ast.BinaryExpr{X: lhs, Op: op, Y: s.Rhs[i]}
@@ -239,6 +262,21 @@ func find(fd *ast.FuncDecl, v string, occ int) ast.Expr {
 						found = s.Cond
 					}
 					n++
+				}
+			}
+		case *ast.CallExpr:
+			// "arg:<callee>:<k>": the k-th argument of the occ-th call of <callee> (e.g. arg:fmtRepeat:2)
+			if strings.HasPrefix(v, "arg:") {
+				parts := strings.Split(v, ":")
+				if len(parts) == 3 && exprString(s.Fun) == parts[1] {
+					k := -1
+					fmt.Sscanf(parts[2], "%d", &k)
+					if k >= 0 && k < len(s.Args) {
+						if n == occ {
+							found = s.Args[k]
+						}
+						n++
+					}
 				}
 			}
 		case *ast.ReturnStmt:
